@@ -41,16 +41,19 @@ type Case struct {
 	N       int       `json:"n"`
 	Grouped bool      `json:"grouped"`
 	Aggs    []Agg     `json:"aggs"`
-	Rows    []gen.Row `json:"rows"` // id, g, v, w, dv (nested d.v)
-	Perm    []int     `json:"perm"` // for the permuted twin: position i takes the values of row Perm[i] (same key, same chunk)
+	Rows    []gen.Row `json:"rows"`            // id, g, v, w, dv (nested d.v)
+	Twins   bool      `json:"twins,omitempty"` // two un-aliased items of one aggregate whose arguments differ in an operator only
+	Perm    []int     `json:"perm"`            // for the permuted twin: position i takes the values of row Perm[i] (same key, same chunk)
 }
 
 var fns = []string{"count", "sum", "avg", "min", "max", "stddev", "stddevs", "var", "vars", "median", "percentile", "first_value", "last_value", "nth_value", "collect", "deduplicate", "merge_agg"}
-var args = []string{"v", "v", "v", "d.v", "v + w", "v * 2", "v - 1", "v * 0.5", "v * 1.5", "d.v * 2", "1"}
+
+// ("v + 1" / "v - 1" and "v * 2" / "v / 2" differ in the operator only: names derived from the argument text must keep them apart)
+var args = []string{"v", "v", "v", "d.v", "v + w", "v * 2", "v - 1", "v + 1", "v / 2", "v * 0.5", "v * 1.5", "d.v * 2", "1"}
 var ps = []float64{0, 0.25, 0.5, 0.9, 0.95, 1}
 
 func isArith(arg string) bool {
-	return arg == "v + w" || arg == "v * 2" || arg == "v - 1" || arg == "v * 0.5" || arg == "v * 1.5" || arg == "d.v * 2"
+	return arg == "v + w" || arg == "v * 2" || arg == "v - 1" || arg == "v + 1" || arg == "v / 2" || arg == "v * 0.5" || arg == "v * 1.5" || arg == "d.v * 2"
 }
 
 func excluded(fn, arg string) bool {
@@ -93,6 +96,31 @@ func genCase(t *rapid.T) Case {
 	}
 	if rapid.IntRange(0, 5).Draw(t, "noalias") == 0 {
 		c.Aggs[rapid.IntRange(0, len(c.Aggs)-1).Draw(t, "noaliasAt")].NoAlias = true
+	}
+	// twins: the same aggregate twice, written without AS, over arguments that differ in one operator only -
+	// whatever name the engine derives from the item text for its bookkeeping has to keep the two apart
+	if rapid.IntRange(0, 5).Draw(t, "twins") == 0 {
+		fn := rapid.SampledFrom([]string{"percentile", "nth_value", "sum", "max", "avg", "count"}).Draw(t, "twinfn")
+		pair := rapid.SampledFrom([][2]string{{"v - 1", "v + 1"}, {"v * 2", "v / 2"}, {"v + w", "v - 1"}}).Draw(t, "twinargs")
+		if !excluded(fn, pair[0]) && !excluded(fn, pair[1]) {
+			a := Agg{Fn: fn, Arg: pair[0], NoAlias: true}
+			if fn == "percentile" {
+				a.P = rapid.SampledFrom(ps).Draw(t, "twinp")
+			}
+			if fn == "nth_value" {
+				a.Nth = rapid.IntRange(1, 3).Draw(t, "twinnth")
+			}
+			b := a
+			b.Arg = pair[1]
+			for i := range c.Aggs {
+				c.Aggs[i].NoAlias = false
+			}
+			if len(c.Aggs) > 3 {
+				c.Aggs = c.Aggs[:3]
+			}
+			c.Aggs = append(c.Aggs, a, b)
+			c.Twins = true
+		}
 	}
 	nkeys := 1
 	if c.Grouped {
@@ -181,6 +209,23 @@ func lookupAgg(c Case, row map[string]any, i int) (any, bool) {
 	if !c.Aggs[i].NoAlias {
 		v, ok := row[fmt.Sprintf("a%d", i)]
 		return v, ok
+	}
+	// several items without AS: the column whose name is the item's text, spacing and letter case aside
+	norm := func(x string) string {
+		return strings.ToLower(strings.Join(strings.Fields(strings.NewReplacer("(", " ", ")", " ", ",", " ", "+", " + ", "-", " - ", "*", " * ", "/", " / ").Replace(x)), ""))
+	}
+	want := norm(c.Aggs[i].sql(""))
+	var byName []string
+	for k := range row {
+		if norm(k) == want {
+			byName = append(byName, k)
+		}
+	}
+	if len(byName) == 1 {
+		return row[byName[0]], true
+	}
+	if c.Twins {
+		return nil, false
 	}
 	known := map[string]bool{"g": true, "ids": true, "window_start": true, "window_end": true, "window_id": true}
 	for j := range c.Aggs {
@@ -274,6 +319,18 @@ func argCell(r gen.Row, arg string) cell {
 			return cell{null: true}
 		}
 		return cell{f: a.f - 1, isInt: a.isInt}
+	case "v + 1":
+		a := num(r["v"])
+		if a.null {
+			return cell{null: true}
+		}
+		return cell{f: a.f + 1, isInt: a.isInt}
+	case "v / 2":
+		a := num(r["v"])
+		if a.null {
+			return cell{null: true}
+		}
+		return cell{f: a.f / 2}
 	case "v * 0.5", "v * 1.5":
 		a := num(r["v"])
 		if a.null {
